@@ -43,7 +43,7 @@ func plainJSON(o run.Outcome) string {
 // C18: results are plain JSON values that can be queried and serialised again.
 func TestC18_Compose(t *testing.T) {
 	c := collector("C18", "compose")
-	rapid.Check(t, func(t *rapid.T) {
+	check(t, func(t *rapid.T) {
 		doc := gen.Doc(t, docCfg())
 		c.Case()
 		cfg1 := gen.ExprCfg{MaxDepth: 2, MaxSteps: 4, Funcs: true, Arith: true, Compare: true, NoFreeVar: true, Let: true}
@@ -173,7 +173,7 @@ var c18Consumers = []string{"@", "to_string(@)", "type(@)", "[@, @]", "to_array(
 // is plain JSON and can be queried again with the same answers as e1 | e2.
 func TestC18_Funcs(t *testing.T) {
 	c := collector("C18", "funcs")
-	rapid.Check(t, func(t *rapid.T) {
+	check(t, func(t *rapid.T) {
 		e1, doc, name := genCall(t)
 		t2 := gen.Pick(t, "consumer", c18Consumers)
 		pr := ast.Parse(t2)
